@@ -416,6 +416,11 @@ func oracleC06(f *sessionFam, w *World, res *Result) []Violation {
 		}
 		opens := w.evs(a, "c-open")
 		if len(opens) == 0 {
+			if ce := w.evs(a, "close"); len(ce) > 0 && f.armedCauses(w, a, ce[0].Seq)[ce[0].S] && ce[0].T-hs[0].T <= time.Duration(2*sp.LatencyMs+1)*time.Millisecond {
+				// the session was closed for a cause of its own (a shutdown, an application close) while the open packet
+				// was still on its way: the connection went down under it
+				continue
+			}
 			l.add("open-packet-first", "", fmt.Sprintf("%s [%s]: admitted handshake but the client never received an open packet", a, ctx))
 			continue
 		}
